@@ -3,6 +3,7 @@ package sim
 import (
 	"context"
 	"crypto/x509"
+	"encoding/asn1"
 	"encoding/base64"
 	"errors"
 	"fmt"
@@ -62,6 +63,9 @@ func (w *World) materialise(ka *keyAllocator) error {
 		}
 		if pos == 0 && w.ChainDefect == ChainLeafIsCA {
 			spec.KeyUsage |= x509.KeyUsageDigitalSignature
+		}
+		if w.TSADefect != TDNone {
+			w.applyTSADefect(spec, pos, n, ka)
 		}
 		var parent *Cert
 		if pos < n-1 {
@@ -140,6 +144,76 @@ func (w *World) materialise(ka *keyAllocator) error {
 		}
 	}
 	return nil
+}
+
+// applyTSADefect turns the honest certificate spec into the defective one.
+func (w *World) applyTSADefect(spec *CertSpec, pos, n int, ka *keyAllocator) {
+	leaf, issuerOfLeaf := pos == 0, pos == 1
+	switch w.TSADefect {
+	case TDLeafExpired:
+		if leaf {
+			spec.NotAfter = Epoch.Add(-time.Hour)
+		}
+	case TDLeafNotYet:
+		if leaf {
+			spec.NotBefore = Epoch.Add(24 * time.Hour)
+		}
+	case TDEKUNonCritical:
+		if leaf {
+			spec.TSALeaf = false
+			spec.EKU = []x509.ExtKeyUsage{x509.ExtKeyUsageTimeStamping}
+		}
+	case TDEKUExtra:
+		if leaf {
+			spec.TSALeaf = false
+			spec.RawEKU, spec.RawEKUCrit = []asn1.ObjectIdentifier{oidEKUTimeStamping, oidEKUCodeSigning}, true
+		}
+	case TDEKUUnknownExtra:
+		if leaf {
+			spec.TSALeaf = false
+			spec.RawEKU, spec.RawEKUCrit = []asn1.ObjectIdentifier{oidEKUTimeStamping, {1, 3, 6, 1, 4, 1, 99999, 3, 1}}, true
+		}
+	case TDEKUAbsent:
+		if leaf {
+			spec.TSALeaf = false
+		}
+	case TDCANoCertSign:
+		if issuerOfLeaf {
+			spec.KeyUsage = x509.KeyUsageCRLSign | x509.KeyUsageDigitalSignature
+		}
+	case TDPathLen:
+		if pos == n-1 && n >= 3 {
+			spec.MaxPathLen = 0
+		}
+	case TDLeafKUExtra:
+		if leaf {
+			spec.KeyUsage = x509.KeyUsageDigitalSignature | x509.KeyUsageKeyEncipherment
+		}
+	case TDLeafKUAbsent:
+		if leaf {
+			spec.NoKeyUsage = true
+		}
+	case TDLeafNoDigSig:
+		if leaf {
+			spec.KeyUsage = x509.KeyUsageContentCommitment
+		}
+	case TDLeafIsCA:
+		if leaf {
+			spec.IsCA = true
+		}
+	case TDLeafRSA1024:
+		if leaf {
+			spec.Key = ka.get("rsa1024")
+		}
+	case TDLeafP224:
+		if leaf {
+			spec.Key = ka.get("ec224")
+		}
+	case TDCANoKU:
+		if issuerOfLeaf {
+			spec.NoKeyUsage = true
+		}
+	}
 }
 
 // chain returns the certificate list handed to the library, with the planned
@@ -419,10 +493,10 @@ type fetchSlot struct {
 }
 
 type recFetcher struct {
-	inner   corecrl.Fetcher
-	slots   map[string]*fetchSlot // caller|url, read-only map
-	mu      sync.Mutex
-	extra   []*FetchRec
+	inner       corecrl.Fetcher
+	slots       map[string]*fetchSlot // caller|url, read-only map
+	mu          sync.Mutex
+	extra       []*FetchRec
 	panicOn     string
 	panicCaller int
 	panicV      any
@@ -700,9 +774,28 @@ type execHooks struct {
 	healCert int // C06.R5 twin: make all sources of this cert (of world 0) honest; -1 none
 }
 
-func (sc *RevScenario) execInBubble(obs *RevObs, altSeed uint32, onlyWorld int, hooks *execHooks) {
-	ka := newKeyAllocator()
-	nt := NewNet()
+// revInfra is the simulated deployment around the real validator.
+type revInfra struct {
+	nt         *Net
+	ocspClient *http.Client
+	crlClient  *http.Client
+	rf         *recFetcher
+	cache      *SimCache
+	validators map[purpose.Purpose]revocation.Validator
+	pv         *panicToken
+	ka         *keyAllocator
+}
+
+// setup materialises the worlds, plans the exchanges and wires the real
+// validator to the simulated network, fetcher and cache. It returns nil after
+// recording a harness error.
+func (sc *RevScenario) setup(obs *RevObs, altSeed uint32, nt *Net, ka *keyAllocator) *revInfra {
+	if ka == nil {
+		ka = newKeyAllocator()
+	}
+	if nt == nil {
+		nt = NewNet()
+	}
 	obs.Net = nt
 	pv := &panicToken{id: "sim-injected-panic"}
 	nt.PanicValue = pv
@@ -710,7 +803,7 @@ func (sc *RevScenario) execInBubble(obs *RevObs, altSeed uint32, onlyWorld int, 
 		if w.C0() == nil {
 			if err := w.materialise(ka); err != nil {
 				obs.HarnessErr = "materialise: " + err.Error()
-				return
+				return nil
 			}
 		}
 	}
@@ -738,13 +831,13 @@ func (sc *RevScenario) execInBubble(obs *RevObs, altSeed uint32, onlyWorld int, 
 		hf, err := corecrl.NewHTTPFetcher(crlClient)
 		if err != nil {
 			obs.HarnessErr = err.Error()
-			return
+			return nil
 		}
 		if sc.Fetcher == FetchRealCache {
 			cache = NewSimCache()
 			if err := sc.seedCache(cache); err != nil {
 				obs.HarnessErr = err.Error()
-				return
+				return nil
 			}
 			hf.Cache = cache
 			hf.DiscardCacheError = sc.Discard
@@ -786,10 +879,19 @@ func (sc *RevScenario) execInBubble(obs *RevObs, altSeed uint32, onlyWorld int, 
 		v, err := revocation.NewWithOptions(revocation.Options{OCSPHTTPClient: ocspClient, CRLFetcher: rf, CertChainPurpose: p})
 		if err != nil {
 			obs.HarnessErr = err.Error()
-			return
+			return nil
 		}
 		validators[p] = v
 	}
+	return &revInfra{nt: nt, ocspClient: ocspClient, crlClient: crlClient, rf: rf, cache: cache, validators: validators, pv: pv, ka: ka}
+}
+
+func (sc *RevScenario) execInBubble(obs *RevObs, altSeed uint32, onlyWorld int, hooks *execHooks) {
+	inf := sc.setup(obs, altSeed, nil, nil)
+	if inf == nil {
+		return
+	}
+	nt, ocspClient, rf, validators, pv := inf.nt, inf.ocspClient, inf.rf, inf.validators, inf.pv
 	// cancellation
 	baseCtx := context.Background()
 	var cancel context.CancelFunc = func() {}
